@@ -308,7 +308,14 @@ func (g *c02G) gen(t *c02Ty, d int, free bool) *c02Exp {
 			if g.rng.Bool() {
 				a, b = b, a
 			}
-			return &c02Exp{K: "arith", Name: Choose(g.rng, ops), Args: []*c02Exp{a, b}}
+			op := Choose(g.rng, ops)
+			if op == "/" && b.K != "var" {
+				// Go folds constant expressions: a literal-only divisor may be the constant 0
+				// ("division by zero" is then a compile error of the emitted Go, which is about Go's
+				// constant arithmetic, not about the inferred signature)
+				op = "*"
+			}
+			return &c02Exp{K: "arith", Name: op, Args: []*c02Exp{a, b}}
 		})
 		add(3, func() *c02Exp { return g.litOf(t) })
 	case "bool":
